@@ -507,6 +507,8 @@ func TestCheck(t *testing.T) {
 		Op     string `json:"op"`
 		Order  []int  `json:"order"`
 		Lim    int    `json:"limiter_fails_at"`
+		OrdDep bool   `json:"order_dependence"`
+		Other  []int  `json:"other_order"`
 	}
 	if run.Replay != "" {
 		rin = &struct {
@@ -514,6 +516,8 @@ func TestCheck(t *testing.T) {
 			Op     string `json:"op"`
 			Order  []int  `json:"order"`
 			Lim    int    `json:"limiter_fails_at"`
+			OrdDep bool   `json:"order_dependence"`
+			Other  []int  `json:"other_order"`
 		}{}
 		if err := run.ReplayInput(rin); err != nil {
 			t.Fatal(err)
@@ -582,6 +586,10 @@ func TestCheck(t *testing.T) {
 						continue
 					}
 					shapes := map[string]bool{}
+					// reconstructed data per completion order (also with errors, where the
+					// non-deferred response is no reference): it must not depend on the order
+					recon := map[string][]int{}
+					var reconFrames = map[string]string{}
 					// every deferred field is also selected outside the fragments: merging
 					// removes the defers, an ordinary response is the right answer
 					redundant := fedlab.NoEffectiveDefer(op)
@@ -605,6 +613,11 @@ func TestCheck(t *testing.T) {
 							data, incErr, sf := checkStream(o)
 							fails = append(fails, sf...)
 							if len(sf) == 0 {
+								g := refexec.Canon(data)
+								if _, seen := recon[g]; !seen {
+									recon[g] = append([]int(nil), x.Choices...)
+									reconFrames[g] = strings.Join(o.w.frames, "\n")
+								}
 								if plainHasErrors || incErr {
 									run.Count("data_not_judged_errors", 1)
 								} else if got := refexec.Canon(data); got != want {
@@ -625,6 +638,31 @@ func TestCheck(t *testing.T) {
 								Detail: fmt.Sprintf("operation %s\ncompletion order (choice indices) %v\nreleased: %s\n%s\nframes:\n%s", q, x.Choices, strings.Join(shorten(x.Order), " ; "), fl.detail, strings.Join(o.w.frames, "\n")),
 								Input:  map[string]any{"family": f.name, "op": q, "order": x.Choices}})
 						}
+					}
+					if rin != nil && rin.OrdDep {
+						var got [2]string
+						var frs [2]string
+						for i, ord := range [][]int{rin.Other, rin.Order} {
+							x := fedorders.RunOne(lab.Sim, ord, func() any { return exec(lab, q) })
+							o := x.Obs.(obs)
+							data, _, sf := checkStream(o)
+							frs[i] = strings.Join(o.w.frames, "\n")
+							if len(sf) > 0 {
+								got[i] = "stream not well-formed: " + sf[0].site
+							} else {
+								got[i] = refexec.Canon(data)
+							}
+							fmt.Printf("order %v reconstructs %s\n%s\n", ord, got[i], frs[i])
+						}
+						run.Eval(2)
+						if got[0] != got[1] {
+							symptom := "a fragment completes without its data and without an error"
+							if strings.Contains(frs[0]+frs[1], "unable to merge results") {
+								symptom = "a fragment fails to merge after a sibling fragment's error propagation"
+							}
+							run.Violate(vk.Violation{Clause: "applying the incremental payloads to the initial payload reconstructs the same data whatever the completion order of the deferred groups", Site: "reconstructed data depends on the completion order", Class: f.name + " / " + symptom, Detail: got[0] + "\nvs\n" + got[1]})
+						}
+						continue
 					}
 					if rin != nil && rin.Lim > 0 {
 						lim := &failingLimiter{at: rin.Lim}
@@ -648,6 +686,21 @@ func TestCheck(t *testing.T) {
 						continue
 					}
 					execs, points, capped := fedorders.Explore(lab.Sim, maxOrders, func() any { return exec(lab, q) }, judge)
+					if len(recon) > 1 {
+						var keys []string
+						for k := range recon {
+							keys = append(keys, k)
+						}
+						sort.Strings(keys)
+						// classed by symptom, so that one root cause does not cover the other
+						symptom := "a fragment completes without its data and without an error"
+						if strings.Contains(reconFrames[keys[0]]+reconFrames[keys[1]], "unable to merge results") {
+							symptom = "a fragment fails to merge after a sibling fragment's error propagation"
+						}
+						run.Violate(vk.Violation{Clause: "applying the incremental payloads to the initial payload reconstructs the same data whatever the completion order of the deferred groups", Site: "reconstructed data depends on the completion order", Class: f.name + " / " + symptom,
+							Detail: fmt.Sprintf("operation %s\norder %v reconstructs %s\nframes:\n%s\norder %v reconstructs %s\nframes:\n%s", q, recon[keys[0]], keys[0], reconFrames[keys[0]], recon[keys[1]], keys[1], reconFrames[keys[1]]),
+							Input:  map[string]any{"family": f.name, "op": q, "order": recon[keys[1]], "order_dependence": true, "other_order": recon[keys[0]]}})
+					}
 					// once more on the default order with SLOW flushes: all deferred groups
 					// are released together and run concurrently while a frame is flushed
 					judge(fedorders.RunOne(lab.Sim, nil, func() any { return execWith(lab, q, true) }))
